@@ -11,10 +11,14 @@ cleanup() { git -C /repo worktree remove --force $WT >/dev/null 2>&1; rm -rf $WT
 trap cleanup EXIT
 cd $WT
 mkdir -p out/m; cp $SRC/* out/m/
-CMD=$(python3 -c "import json,sys; print(json.load(open('$SRC/meta.json'))['demo_build_and_run'])")
 MK=$(basename $SRC)
-CMD=${CMD//out\/$MK/out\/m}
-CMD=${CMD//\/tmp\/mut\/[A-Z0-9]*\//}
+CMD=$(python3 -c "
+import json,re
+c=json.load(open('$SRC/meta.json'))['demo_build_and_run']
+c=re.sub(r'/tmp/mut2?/C[0-9]+/','',c)          # agent worktree prefix -> relative to the scratch worktree
+c=re.sub(r'^cd\s+\S*\s*&&\s*','',c)
+c=c.replace('out/$MK','out/m')
+print(c)")
 cfg() { cmake -G Ninja -B _build -DCMAKE_BUILD_TYPE=RelWithDebInfo -DBUILD_TESTING=ON >/dev/null 2>&1 && cmake --build _build >/dev/null 2>&1; }
 cfg || { echo "FAIL: clean build"; exit 1; }
 ( timeout 300 bash -c "$CMD" ) >out/unpatched.log 2>&1; U=$?
